@@ -969,9 +969,10 @@ class HTTPResponse(BaseHTTPResponse):
         flush_decoder = amt is None or (amt != 0 and not data)
 
         if not data and len(self._decoded_buffer) == 0:
-            if flush_decoder and decode_content:
+            if flush_decoder and decode_content and self._has_decoded_content:
                 # The body has ended: the decoder returns what it still holds
-                # and reports an incomplete stream.
+                # and reports an incomplete stream (a body without a single
+                # byte never went through the decoder).
                 self._decoded_buffer.put(self._flush_decoder())
                 if amt is None:
                     return self._decoded_buffer.get_all()
